@@ -163,6 +163,11 @@ static void do_op(const char *op, int a, int b, const char *text)
     }
 #endif
 #ifndef SIMC
+    else if (!strcmp(op, "pt_sum")) { SIM_pt p; p.x = a; p.y = a + 0.5; sim_phase(1); int r = SIM_pt_sum(&p); sim_phase(0); res_int(r); }
+    else if (!strcmp(op, "pt_out")) { SIM_pt p; p.x = -1; p.y = -1; sim_phase(1); SIM_pt_out(&p, a); sim_phase(0); res_arr(p.x, (long)(p.y * 2)); }
+    else if (!strcmp(op, "pt_scale")) { SIM_pt p; p.x = a; p.y = a + 0.5; sim_phase(1); SIM_pt_scale(&p, b); sim_phase(0); res_arr(p.x, (long)(p.y * 2)); }
+#endif
+#ifndef SIMC
     else if (!strcmp(op, "make_box")) { sim_phase(1); SIM_make_box(b, &bx[a]); sim_phase(0); res_none(); }
 #endif
 #ifndef SIMC
